@@ -6,6 +6,7 @@ import (
 	"strings"
 )
 
+
 // CEnv is the context in which a contract expression is evaluated.
 type CEnv struct {
 	names   map[string]Term // parameters, ghosts, bound variables
@@ -685,6 +686,82 @@ func init() {
 			x.d.instantiate("TFoldM", map[string]string{"T": xs.Sort, "E": si.Elem, "COMB": ms.fname})
 			return tApp(ms.ret, "tfoldm_"+xs.Sort+"_"+ms.fname, m, acc, xs)
 		},
+		"takew":  func(x *Exec, env *CEnv, e CCall, want string) Term { return x.cPred(env, e, "takew") },
+		"dropw":  func(x *Exec, env *CEnv, e CCall, want string) Term { return x.cPred(env, e, "dropw") },
+		"filter": func(x *Exec, env *CEnv, e CCall, want string) Term { return x.cPred(env, e, "filter") },
+		"map": func(x *Exec, env *CEnv, e CCall, want string) Term {
+			f := x.ceval(env, e.Args[0], "")
+			l := x.ceval(env, e.Args[1], "")
+			fi := x.d.sorts[f.Sort]
+			li := x.listKind(env, l, "map")
+			if fi == nil || fi.Kind != "fn" || len(fi.Args) != 1 || len(fi.Rets) != 1 || fi.Args[0] != li.Elem || li.Kind != "list" {
+				x.cfail(env, "map(%s:%s, %s:%s)", f.S, f.Sort, l.S, l.Sort)
+			}
+			lb := x.d.ListOf(fi.Rets[0])
+			x.d.instantiate("ListMap", map[string]string{"F": f.Sort, "LA": l.Sort, "LB": lb})
+			return tApp(lb, "map_"+l.Sort+"_"+f.Sort, f, l)
+		},
+		// mapv(f, kv): (k, a) -> (k, f(k, a)) over a list of pairs
+		"mapv": func(x *Exec, env *CEnv, e CCall, want string) Term {
+			f := x.ceval(env, e.Args[0], "")
+			l := x.ceval(env, e.Args[1], "")
+			fi := x.d.sorts[f.Sort]
+			li := x.listKind(env, l, "mapv")
+			pi := x.d.sorts[li.Elem]
+			if fi == nil || fi.Kind != "fn" || len(fi.Args) != 2 || len(fi.Rets) != 1 || pi == nil || pi.Kind != "pair" || pi.Args[0] != fi.Args[0] || pi.Args[1] != fi.Args[1] {
+				x.cfail(env, "mapv(%s:%s, %s:%s)", f.S, f.Sort, l.S, l.Sort)
+			}
+			pb := x.d.PairOf(fi.Args[0], fi.Rets[0])
+			lb := x.d.ListOf(pb)
+			x.d.instantiate("PairMapV", map[string]string{"F": f.Sort, "LA": l.Sort, "LB": lb, "PA": li.Elem, "PB": pb})
+			return tApp(lb, "mapv_"+l.Sort+"_"+f.Sort, f, l)
+		},
+		// rhsview(f, a...): the list yielded by the iterator f(a...) (empty when f returns nil);
+		// flatmap(f, l): concatenation of rhsview over l
+		"rhsview": func(x *Exec, env *CEnv, e CCall, want string) Term {
+			f := x.ceval(env, e.Args[0], "")
+			_, lb := x.flatSorts(env, f)
+			fi := x.d.sorts[f.Sort]
+			args := []Term{f}
+			for i, a := range e.Args[1:] {
+				args = append(args, x.ceval(env, a, fi.Args[i]))
+			}
+			return tApp(lb, "rhsview_"+f.Sort, args...)
+		},
+		"flatmap": func(x *Exec, env *CEnv, e CCall, want string) Term {
+			f := x.ceval(env, e.Args[0], "")
+			l := x.ceval(env, e.Args[1], "")
+			la, lb := x.flatSorts(env, f)
+			if l.Sort != la {
+				x.cfail(env, "flatmap: list has sort %s, function takes %s", l.Sort, la)
+			}
+			return tApp(lb, "flatmap_"+la+"_"+f.Sort, f, l)
+		},
+		"untilerr": func(x *Exec, env *CEnv, e CCall, want string) Term { return x.cErr(env, e, "untilerr") },
+		"firsterr": func(x *Exec, env *CEnv, e CCall, want string) Term { return x.cErr(env, e, "firsterr") },
+		"evl":      func(x *Exec, env *CEnv, e CCall, want string) Term { return x.cErr(env, e, "evl") },
+		// fresh(x): x was not allocated in the pre-state
+		"fresh": func(x *Exec, env *CEnv, e CCall, want string) Term {
+			r := x.ceval(env, e.Args[0], "Ref")
+			st := env.old
+			if st == nil {
+				st = env.st
+			}
+			return tAnd(tNot(tEq(r, nullRef)), tNot(x.isAlloc(st, r)))
+		},
+		// seqlist(x): the list an iterator reference stands for (nil is the empty list)
+		"seqlist": func(x *Exec, env *CEnv, e CCall, want string) Term {
+			r := x.ceval(env, e.Args[0], "Ref")
+			name := "view"
+			if len(e.Args) > 1 {
+				name = e.Args[1].(CIdent).Name
+			}
+			v, ok := x.ifaceState(env, CCall{Fn: name, Args: []CExpr{e.Args[0]}})
+			if !ok {
+				x.cfail(env, "seqlist: %s carries no %s", r.S, name)
+			}
+			return tIte(tEq(r, nullRef), x.zeroOfSort(v.Sort, nil), v)
+		},
 		"zero": func(x *Exec, env *CEnv, e CCall, want string) Term {
 			id, ok := e.Args[0].(CIdent)
 			if !ok {
@@ -738,6 +815,105 @@ func mentionsState(e CExpr) bool {
 		}
 	}
 	return false
+}
+
+func (x *Exec) cPred(env *CEnv, e CCall, name string) Term {
+	f := x.ceval(env, e.Args[0], "")
+	l := x.ceval(env, e.Args[1], "")
+	fi := x.d.sorts[f.Sort]
+	li := x.listKind(env, l, name)
+	if fi != nil && fi.Kind == "fn" && len(fi.Args) == 2 && len(fi.Rets) == 1 && fi.Rets[0] == "Bool" && li.Kind == "list" {
+		pi := x.d.sorts[li.Elem]
+		if pi == nil || pi.Kind != "pair" || pi.Args[0] != fi.Args[0] || pi.Args[1] != fi.Args[1] {
+			x.cfail(env, "%s: two-argument predicate %s over list of %s", name, f.Sort, li.Elem)
+		}
+		x.d.instantiate("ListPred2", map[string]string{"F": f.Sort, "L": l.Sort, "P": li.Elem})
+		return tApp(l.Sort, name+"_"+l.Sort+"_"+f.Sort, f, l)
+	}
+	if fi == nil || fi.Kind != "fn" || len(fi.Args) != 1 || len(fi.Rets) != 1 || fi.Rets[0] != "Bool" || fi.Args[0] != li.Elem || li.Kind != "list" {
+		x.cfail(env, "%s(%s:%s, %s:%s): need a predicate over the list's elements", name, f.S, f.Sort, l.S, l.Sort)
+	}
+	x.d.instantiate("ListPred", map[string]string{"F": f.Sort, "L": l.Sort})
+	return tApp(l.Sort, name+"_"+l.Sort+"_"+f.Sort, f, l)
+}
+
+// flatSorts: for f : func(A...) Iterator[B], the sorts List[A-or-pair] and List[B-or-pair].
+func (x *Exec) flatSorts(env *CEnv, f Term) (string, string) {
+	fi := x.d.sorts[f.Sort]
+	if fi == nil || fi.Kind != "fn" || f.Ty == nil {
+		x.cfail(env, "flatmap/rhsview: %s (sort %s, type %v) is not a function returning an iterator", f.S, f.Sort, f.Ty)
+	}
+	sig, ok := types.Unalias(f.Ty).Underlying().(*types.Signature)
+	if !ok || sig.Results().Len() != 1 {
+		x.cfail(env, "flatmap/rhsview: %v", f.Ty)
+	}
+	rn := namedOf(sig.Results().At(0).Type())
+	if rn == nil || rn.TypeArgs() == nil {
+		x.cfail(env, "flatmap/rhsview: result type %v", sig.Results().At(0).Type())
+	}
+	var eb string
+	switch rn.TypeArgs().Len() {
+	case 1:
+		eb = x.sortOf(rn.TypeArgs().At(0))
+	case 2:
+		eb = x.d.PairOf(x.sortOf(rn.TypeArgs().At(0)), x.sortOf(rn.TypeArgs().At(1)))
+	default:
+		x.cfail(env, "flatmap/rhsview: iterator type %v", rn)
+	}
+	var ea string
+	switch len(fi.Args) {
+	case 1:
+		ea = fi.Args[0]
+	case 2:
+		ea = x.d.PairOf(fi.Args[0], fi.Args[1])
+	default:
+		x.cfail(env, "flatmap/rhsview: function arity %d", len(fi.Args))
+	}
+	la, lb := x.d.ListOf(ea), x.d.ListOf(eb)
+	if len(fi.Args) == 1 {
+		x.d.instantiate("FlatMap", map[string]string{"F": f.Sort, "A": ea, "LA": la, "LB": lb})
+	} else {
+		x.d.instantiate("FlatMap2", map[string]string{"F": f.Sort, "A": fi.Args[0], "B": fi.Args[1], "PA": ea, "LA": la, "LB": lb})
+	}
+	return la, lb
+}
+
+func (x *Exec) cErr(env *CEnv, e CCall, name string) Term {
+	f := x.ceval(env, e.Args[0], "")
+	fi := x.d.sorts[f.Sort]
+	if fi == nil || fi.Kind != "fn" || len(fi.Rets) != 1 || fi.Rets[0] != "Err" {
+		x.cfail(env, "%s: %s is not a function returning error", name, f.S)
+	}
+	ev := x.d.Uninterp("CallEv")
+	tev := x.d.TrOf(ev)
+	evf := "ev_" + sanitize(f.Sort)
+	var l, acc Term
+	if name == "evl" {
+		acc = x.ceval(env, e.Args[1], tev)
+		l = x.ceval(env, e.Args[2], "")
+	} else {
+		l = x.ceval(env, e.Args[1], "")
+	}
+	li := x.listKind(env, l, name)
+	tmpl := "ListErr"
+	if len(fi.Args) == 2 {
+		tmpl = "ListErr2"
+		x.d.fun(evf, []string{f.Sort, fi.Args[0], fi.Args[1]}, ev)
+	} else {
+		if len(fi.Args) != 1 || fi.Args[0] != li.Elem {
+			x.cfail(env, "%s: function over %v, list of %s", name, fi.Args, li.Elem)
+		}
+		x.d.fun(evf, []string{f.Sort, li.Elem}, ev)
+	}
+	x.errSort()
+	x.d.instantiate(tmpl, map[string]string{"F": f.Sort, "L": l.Sort, "TEV": tev, "EV": evf, "P": li.Elem})
+	switch name {
+	case "untilerr":
+		return tApp(l.Sort, "untilerr_"+l.Sort+"_"+f.Sort, f, l)
+	case "firsterr":
+		return tApp("Err", "firsterr_"+l.Sort+"_"+f.Sort, f, l)
+	}
+	return tApp(tev, "evl_"+l.Sort+"_"+f.Sort, f, acc, l)
 }
 
 func (x *Exec) cApp(env *CEnv, e CCall, k int) Term {
